@@ -22,35 +22,21 @@ Answer(V, op, a, v, o, bf, ol) ==
       [] op = "down_with" -> MapDownWithO(V, bf, ol, a)
       [] op = "up_with"   -> MapUpWithO(bf, ol, a)
 
-TraceInit == l = 1 /\ cur = << >>
-
-Build ==
-    /\ l <= Len(Rec) /\ Rec[l].e = "def"
-    /\ LET e == Rec[l] IN
-         /\ e.built = "ok"
-         /\ e.obs = <<Len(e.vals), Width(e.vals), Len(e.vals), Width(e.vals)>>
-         /\ cur' = e.vals
-    /\ l' = l + 1
-
-Query ==
-    /\ l <= Len(Rec) /\ Rec[l].e = "q"
-    /\ LET e == Rec[l]
-           o == Occ(cur, e.v)
-           bf == Before(cur, e.v)
-           ol == Occ(cur, Low(e.v, Width(cur)))
-       IN \A j \in 1..Len(e.a) : e.r[j] = Answer(cur, e.op, e.a[j], e.v, o, bf, ol)
-    /\ UNCHANGED cur /\ l' = l + 1
-
-ValueIter ==
-    /\ l <= Len(Rec) /\ Rec[l].e = "iter"
-    /\ Rec[l].items = VIterFrom(cur, 0, Rec[l].v)
-    /\ UNCHANGED cur /\ l' = l + 1
-
-Items ==
-    /\ l <= Len(Rec) /\ Rec[l].e = "items"
-    /\ Rec[l].items = cur
-    /\ UNCHANGED cur /\ l' = l + 1
-
-TraceNext == Build \/ Query \/ ValueIter \/ Items
+\* Every event after a `def` names that def's line (`d`); verdicts are computed at constant level.
+Refers(j) == LET d == Rec[j].d IN d >= 1 /\ d < j /\ Rec[d].e = "def" /\ \A k \in (d + 1)..(j - 1) : Rec[k].e # "def"
+DefOK(j) == LET e == Rec[j] IN e.built = "ok" /\ e.obs = <<Len(e.vals), Width(e.vals), Len(e.vals), Width(e.vals)>>
+QueryOK(j) == LET e == Rec[j]
+                  V == Rec[e.d].vals
+                  o == Occ(V, e.v)
+                  bf == Before(V, e.v)
+                  ol == Occ(V, Low(e.v, Width(V)))
+              IN Refers(j) /\ \A i \in 1..Len(e.a) : e.r[i] = Answer(V, e.op, e.a[i], e.v, o, bf, ol)
+IterOK(j) == Refers(j) /\ Rec[j].items = VIterFrom(Rec[Rec[j].d].vals, 0, Rec[j].v)
+ItemsOK(j) == Refers(j) /\ Rec[j].items = Rec[Rec[j].d].vals
+Verdict == [j \in 1..Len(Rec) |-> CASE Rec[j].e = "def" -> DefOK(j) [] Rec[j].e = "q" -> QueryOK(j) [] Rec[j].e = "iter" -> IterOK(j)
+                                    [] Rec[j].e = "items" -> ItemsOK(j) [] OTHER -> FALSE]
+TraceInit == l = 1 /\ cur = 0
+Event == /\ l <= Len(Rec) /\ Verdict[l] /\ cur' = (IF Rec[l].e = "def" THEN l ELSE cur) /\ l' = l + 1
+TraceNext == Event
 TraceSpec == TraceInit /\ [][TraceNext]_vars
 =============================================================================
